@@ -142,6 +142,9 @@ type env struct {
 	streamID uuid.UUID
 	autoAck  bool
 	autoAcked [][2]int
+	aliasOnAck bool
+	nextAlias  uint32
+	autoAliases [][][2]int
 }
 
 func (e *env) did(id int) *message.DataID {
@@ -281,12 +284,24 @@ func runCase(c *caseIn, r *rng.R) (res result) {
 			}
 			e.chunks[co.seq] = co
 			auto := e.autoAck
+			ack := &message.UpstreamChunkAck{StreamIDAlias: 1, Results: []*message.UpstreamChunkResult{{SequenceNumber: co.seq, ResultCode: message.ResultCodeSucceeded}}}
 			if auto {
 				e.autoAcked = append(e.autoAcked, [2]int{int(co.seq), int(message.ResultCodeSucceeded)})
+				if e.aliasOnAck {
+					ack.DataIDAliases = map[uint32]*message.DataID{}
+					var al [][2]int
+					for _, id := range co.ids {
+						e.nextAlias++
+						ack.DataIDAliases[e.nextAlias] = e.dataID[id]
+						e.aliasTbl[e.nextAlias] = id
+						al = append(al, [2]int{int(e.nextAlias), id})
+					}
+					e.autoAliases = append(e.autoAliases, al)
+				}
 			}
 			e.mu.Unlock()
 			if auto {
-				s.Send(&message.UpstreamChunkAck{StreamIDAlias: 1, Results: []*message.UpstreamChunkResult{{SequenceNumber: co.seq, ResultCode: message.ResultCodeSucceeded}}})
+				s.Send(ack)
 			}
 		case *message.UpstreamCloseRequest:
 			e.mu.Lock()
@@ -302,6 +317,19 @@ func runCase(c *caseIn, r *rng.R) (res result) {
 	defer b.Release()
 
 	pol := &hookPolicy{real: realPolicy(c), tick: make(chan time.Time), isFlush: make(chan bool, 64)}
+	var usePol iscp.FlushPolicy = pol
+	if c.Writers > 0 {
+		var cfg iscp.UpstreamConfig
+		switch c.Policy {
+		case "interval":
+			iscp.WithUpstreamFlushPolicyIntervalOnly(3 * time.Millisecond)(&cfg)
+		case "intervalorsize":
+			iscp.WithUpstreamFlushPolicyIntervalOrBufferSize(3*time.Millisecond, uint32(c.Thresh))(&cfg)
+		default:
+			cfg.FlushPolicy = realPolicy(c)
+		}
+		usePol = cfg.FlushPolicy
+	}
 	st := &sigStorage{VerifSentStorage: iscp.VerifNewInmemSentStorageNoPayload(), stored: make(chan uint32, 4096)}
 	var conn *iscp.Conn
 	err, blocked := call("connect", func() error {
@@ -325,7 +353,7 @@ func runCase(c *caseIn, r *rng.R) (res result) {
 		ctx, cancel := context.WithTimeout(context.Background(), wd)
 		defer cancel()
 		var err error
-		up, err = conn.OpenUpstream(ctx, "sess", iscp.WithUpstreamFlushPolicy(pol), iscp.WithUpstreamQoS(qos),
+		up, err = conn.OpenUpstream(ctx, "sess", iscp.WithUpstreamFlushPolicy(usePol), iscp.WithUpstreamQoS(qos),
 			iscp.WithUpstreamCloseTimeout(2*time.Second),
 			iscp.WithUpstreamSendDataPointsHooker(iscp.SendDataPointsHookerFunc(func(id uuid.UUID, ch iscp.UpstreamChunk) {
 				var gs []grp
@@ -488,21 +516,135 @@ func runCase(c *caseIn, r *rng.R) (res result) {
 		return coqfmt.List(s)
 	}
 
+	sequential := c.Writers == 0
+	if !sequential {
+		// ---- concurrent mode: writers own disjoint data ids; a flusher; Close races with them.
+		e.mu.Lock()
+		e.autoAck = true
+		e.aliasOnAck = c.QoS%2 == 0
+		e.nextAlias = 100
+		e.mu.Unlock()
+		type wr struct {
+			term string
+			ret  int
+		}
+		perWriter := make([][]wr, c.Writers)
+		var wg sync.WaitGroup
+		var el sync.Mutex
+		stop := make(chan struct{})
+		nw := 6 + r.Intn(10)
+		seeds := make([]uint64, c.Writers)
+		for i := range seeds {
+			seeds[i] = r.U64()
+		}
+		blockedW := make(chan string, 16)
+		for w := 0; w < c.Writers; w++ {
+			wg.Add(1)
+			go func(w int) {
+				defer wg.Done()
+				rr := rng.New(seeds[w])
+				for k := 0; k < nw; k++ {
+					id := (w+1)*10 + 1 + rr.Intn(2)
+					np := 1 + rr.Intn(2)
+					var dps []*message.DataPoint
+					var pts []ptT
+					el.Lock()
+					for j := 0; j < np; j++ {
+						elapsed++
+						p := &message.DataPoint{ElapsedTime: time.Duration(elapsed), Payload: rr.Bytes(rr.Intn(6))}
+						dps = append(dps, p)
+						pts = append(pts, ptOf(p))
+					}
+					e.mu.Lock()
+					did := e.did(id)
+					e.mu.Unlock()
+					el.Unlock()
+					err, blocked := call("write", func() error {
+						ctx, cancel := context.WithTimeout(context.Background(), wd)
+						defer cancel()
+						return up.WriteDataPoints(ctx, did, dps...)
+					})
+					if blocked {
+						blockedW <- "WriteDataPoints did not return within the watchdog (concurrent mode)"
+						return
+					}
+					perWriter[w] = append(perWriter[w], wr{fmt.Sprintf("Write %d %s", id, ptsTerm(pts)), retOf(err)})
+					if rr.Chance(1, 3) {
+						time.Sleep(time.Duration(rr.Intn(300)) * time.Microsecond)
+					}
+				}
+			}(w)
+		}
+		wg.Add(1)
+		go func() {
+			defer wg.Done()
+			rr := rng.New(r.U64())
+			for k := 0; k < 3; k++ {
+				select {
+				case <-stop:
+					return
+				case <-time.After(time.Duration(rr.Intn(500)) * time.Microsecond):
+				}
+				ctx, cancel := context.WithTimeout(context.Background(), wd)
+				up.Flush(ctx)
+				cancel()
+			}
+		}()
+		time.Sleep(time.Duration(r.Intn(1500)) * time.Microsecond)
+		cerr, cblocked := call("close", func() error {
+			ctx, cancel := context.WithTimeout(context.Background(), wd)
+			defer cancel()
+			return up.Close(ctx)
+		})
+		close(stop)
+		wg.Wait()
+		select {
+		case m := <-blockedW:
+			return bad(m)
+		default:
+		}
+		if cblocked {
+			return bad("Upstream.Close did not return within the watchdog (concurrent mode, every chunk acknowledged at once)")
+		}
+		sn := e.snapshot(up)
+		for _, ws := range perWriter {
+			for _, x := range ws {
+				emit(x.term, x.ret, sn)
+			}
+		}
+		time.Sleep(3 * time.Millisecond) // let the last acknowledgements be sent
+		e.mu.Lock()
+		aa := append([][2]int(nil), e.autoAcked...)
+		al := append([][][2]int(nil), e.autoAliases...)
+		e.mu.Unlock()
+		for i, a := range aa {
+			if i < len(al) {
+				emit("Alias "+aliasesTerm(al[i]), 0, sn)
+			}
+			emit("Results "+aliasesTerm([][2]int{a}), 0, sn)
+		}
+		acked = len(aa)
+		emit("Close", retOf(cerr), sn)
+	} else {
 	closed := false
+	// all points of a case live in one backing array and every write passes a window of it with
+	// spare capacity, as a caller slicing one batch would
+	backing := make([]*message.DataPoint, 0, 1024)
 	for _, op := range c.Ops {
 		if lost != "" {
 			return bad(lost)
 		}
 		switch op.Op {
 		case "write":
-			var dps []*message.DataPoint
 			var pts []ptT
+			start := len(backing)
 			for _, ln := range op.Lens {
 				elapsed++
 				p := &message.DataPoint{ElapsedTime: time.Duration(elapsed), Payload: r.Bytes(ln)}
-				dps = append(dps, p)
+				backing = append(backing, p)
 				pts = append(pts, ptOf(p))
 			}
+			dps := backing[start:len(backing)]
 			e.mu.Lock()
 			did := e.did(op.ID)
 			e.mu.Unlock()
@@ -539,6 +681,33 @@ func runCase(c *caseIn, r *rng.R) (res result) {
 			}
 			drainStored()
 			sn := e.snapshot(up)
+			emit("Tick", 0, sn)
+			emit("Tick", 0, sn)
+		case "flushc":
+			// Flush calls whose context is already cancelled (the flush loop may or may not pick the
+			// request up), then two ticks as a barrier with the flush loop; equivalent to one Tick
+			for i := 0; i < 1+len(op.Lens); i++ {
+				_, blocked := call("flush-cancelled", func() error {
+					ctx, cancel := context.WithCancel(context.Background())
+					cancel()
+					return up.Flush(ctx)
+				})
+				if blocked {
+					return bad("Flush with a cancelled context did not return within the watchdog")
+				}
+			}
+			for i := 0; i < 2; i++ {
+				select {
+				case pol.tick <- time.Now():
+				case <-time.After(wd):
+					if !closed {
+						return bad("flush loop did not take a tick within the watchdog")
+					}
+				}
+			}
+			drainStored()
+			sn := e.snapshot(up)
+			emit("Tick", 0, sn)
 			emit("Tick", 0, sn)
 			emit("Tick", 0, sn)
 		case "flush":
@@ -616,6 +785,7 @@ func runCase(c *caseIn, r *rng.R) (res result) {
 			}
 		}
 	}
+	}
 	// hooks are delivered asynchronously: wait until they are all in (bounded)
 	broker.WaitFor(500*time.Millisecond, func() bool {
 		e.mu.Lock()
@@ -671,7 +841,7 @@ func runCase(c *caseIn, r *rng.R) (res result) {
 	}
 	polT := map[string]string{"none": "PNone", "interval": "PInterval", "size": fmt.Sprintf("(PSize %d)", c.Thresh),
 		"intervalorsize": fmt.Sprintf("(PIntervalOrSize %d)", c.Thresh), "immediate": "PImmediate"}[c.Policy]
-	res.term = fmt.Sprintf("mkUpCase %s %s %s %s %s %s %s %s %s %s true", polT, coqfmt.List(rev0T), coqfmt.List(opsT),
+	res.term = fmt.Sprintf("mkUpCase %s %s %s %s %s %s %s %s %s %s "+coqfmt.Bool(sequential), polT, coqfmt.List(rev0T), coqfmt.List(opsT),
 		coqfmt.List(retsT), coqfmt.List(snapsT), coqfmt.List(chunksT), coqfmt.List(shT), coqfmt.List(ahT), coqfmt.List(clT), coqfmt.Bool(after))
 	res.nchunks = len(seqs)
 	res.nids = len(idset)
@@ -710,7 +880,11 @@ func genCase(r *rng.R) *caseIn {
 			}
 			c.Ops = append(c.Ops, op)
 		case k < 8:
-			c.Ops = append(c.Ops, opIn{Op: "flush"})
+			if r.Chance(1, 5) {
+				c.Ops = append(c.Ops, opIn{Op: "flushc", Lens: make([]int, r.Intn(3))})
+			} else {
+				c.Ops = append(c.Ops, opIn{Op: "flush"})
+			}
 		case k < 9 && (c.Policy == "interval" || c.Policy == "intervalorsize"):
 			c.Ops = append(c.Ops, opIn{Op: "tick"})
 		default:
@@ -754,6 +928,11 @@ func genCase(r *rng.R) *caseIn {
 		}
 	}
 	return c
+}
+
+func genConcurrent(r *rng.R) *caseIn {
+	return &caseIn{Policy: []string{"interval", "size", "intervalorsize", "immediate"}[r.Intn(4)], Thresh: []int{4, 12, 40}[r.Intn(3)],
+		QoS: r.Intn(3), Writers: 2 + r.Intn(3)}
 }
 
 // all op sequences of length n over a small alphabet, per policy
@@ -836,6 +1015,13 @@ func main() {
 		genExhaustive(exn, add)
 		for i := 0; i < nrand; i++ {
 			add(genCase(r.Fork()), "random")
+		}
+		nconc := 150
+		if *tier == "thorough" {
+			nconc = 2000
+		}
+		for i := 0; i < nconc; i++ {
+			add(genConcurrent(r.Fork()), "concurrent")
 		}
 	}
 	results := make([]coqfmt.Case, len(jobs))
